@@ -15,7 +15,10 @@ CONSTANTS Sizes,      \* value sizes to insert (some above the inline limit)
           ShrinkFrom, \* ... and only removals / overwrites from this step on (0, large = no phases)
           AppendOnly, \* explore only appends: every element-size stream (bulk-build sources, C17)
           Persist,    \* also explore commit (both kinds, 1..3 workers), cache drop and crash (abandon + reopen) events
-          EmitDepth   \* simulation: print the history of a walk when it reaches this length (0 = off)
+          EmitDepth,  \* simulation: print the history of a walk when it reaches this length (0 = off)
+          FanFrom     \* simulation: print the history at every length FanFrom..EmitDepth; inside that window all inserts, overwrites and
+                      \* removals are ONE action, so that TLC's simulator generates (and prints) the complete one-step closure of every
+                      \* state the walk passes through there (= EmitDepth: no window)
 
 VARIABLES tree, seq, nextId, hist, res,
           ctree, cseq    \* tree and sequence at the last commit (ctree = "none" before the first)
@@ -76,8 +79,12 @@ Crash == /\ Persist /\ ctree.k # "none" /\ tree' = ctree /\ seq' = cseq /\ res' 
 Big == IF WithReads THEN {-1, -2} ELSE {}
 Growing == Len(hist) < GrowUntil
 Shrinking == Len(hist) >= ShrinkFrom
+InFan == FanFrom < EmitDepth /\ Len(hist) >= FanFrom
+FanNext == \E c \in ({"i"} \X (0..N) \X Sizes) \cup ({"s"} \X (0..(N - 1)) \X Sizes) \cup ({"r"} \X (0..(N - 1)) \X {0}) :
+             IF c[1] = "i" THEN Insert(c[2], c[3]) ELSE IF c[1] = "s" THEN Set(c[2], c[3]) ELSE Remove(c[2])
 Next ==
   IF AppendOnly THEN \E s \in Sizes : Insert(N, s) ELSE
+  IF InFan THEN FanNext ELSE
   \/ ~Shrinking /\ \E i \in (0..(IF WithReads THEN N + 1 ELSE N)) \cup Big, s \in Sizes : Insert(i, s)
   \/ Shrinking /\ N = 0 /\ \E s \in Sizes : Insert(0, s)   \* never deadlock before EmitDepth
   \/ Growing /\ \E s \in Sizes : Insert(N, s)          \* appends: a second insert disjunct biases walks towards growth
@@ -103,5 +110,5 @@ Routing == RoutingOK(tree)
 
 View == <<Shape(tree), IF ctree.k = "none" THEN <<>> ELSE <<Shape(ctree)>> >>
 \* simulation mode: one JSON line per walk, printed when the walk reaches EmitDepth operations
-EmitWalk == (EmitDepth > 0 /\ Len(hist) = EmitDepth) => PrintT(ToJson(hist))
+EmitWalk == (EmitDepth > 0 /\ Len(hist) >= FanFrom /\ Len(hist) <= EmitDepth) => PrintT(ToJson(hist))
 =============================================================================
